@@ -70,6 +70,21 @@ theorem xorStream_injective (ks : Nat → UInt8) (off : Nat) {a b : Bytes}
   have := congrArg (xorStream ks off) h
   simpa using this
 
+/-! ### magic of a payload -/
+
+theorem readLe32_four_eq_iff (a b c d : UInt8) (n : Nat) (hn : n < 4294967296) :
+    readLe32 [a, b, c, d] = n ↔ [a, b, c, d] = le32 n := by
+  have ha := a.toNat_lt; have hb := b.toNat_lt; have hc := c.toNat_lt; have hd := d.toNat_lt
+  simp only [readLe32, le32, List.cons.injEq, and_true]
+  constructor
+  · intro h
+    refine ⟨?_, ?_, ?_, ?_⟩ <;> apply UInt8.toNat_inj.mp <;> simp only [UInt8.toNat_ofNat'] <;> omega
+  · rintro ⟨h1, h2, h3, h4⟩
+    have e1 := congrArg UInt8.toNat h1; have e2 := congrArg UInt8.toNat h2
+    have e3 := congrArg UInt8.toNat h3; have e4 := congrArg UInt8.toNat h4
+    simp only [UInt8.toNat_ofNat'] at e1 e2 e3 e4
+    omega
+
 /-! ### frames -/
 
 section
